@@ -193,7 +193,43 @@ def run(chk):
             if nb <= 3:
                 chk.violation("input", f"after updateValues for the single field {f!r} (via {via}) the tree differs from a fresh creation",
                               template=srcs[i], field=f, D0=D0, D1=D1, updated=x, fresh=y, mode="")
-    chk.programs = len(meta2) + len(meta3)
+    # <include>: the included file's bindings are out of the map's reach wherever the include stands (top level, inside wx:if / wx:for / block /
+    # an element), so every field must lose its updaters; checked on the real map by running the updaters of whatever is still advertised
+    inc_cases = []
+    incs = {"i1": "<text>{{a}}!</text>", "i2": "<v title=\"{{b}}\">{{a}}{{c}}</v><include src=\"./i1\"/>"}
+    for host in ('<include src="./i1"/>', '<block wx:if="{{c}}"><include src="./i1"/></block>', '<view wx:for="{{l}}"><include src="./i1"/></view>',
+                 '<block><include src="./i1"/></block>', '<view><view><include src="./i2"/></view></view>', '<block wx:if="{{c}}"><block wx:if="{{b}}"><include src="./i2"/></block></block>',
+                 '<template name="t"><include src="./i1"/></template><template is="t" data="{{a}}"/>'):
+        for before in ('<view class="{{c}}">{{a}}</view>', '<v title="{{a}}{{b}}"/>', ''):
+            inc_cases.append([["p", before + host + '<text>{{b}}</text>']] + [[k_, v_] for k_, v_ in incs.items()])
+    igroups = render.compile_templates(inc_cases)
+    D0i = {"a": "old", "b": "B", "c": True, "l": [1, 2]}
+    ireqs, imeta = [], []
+    for files, g in zip(inc_cases, igroups):
+        if "panic" in g or not isinstance(g.get("gen_groups"), str):
+            chk.violation("input", "compiler failed on an include template", template=files[0][1], answer=json.dumps(g)[:300])
+            continue
+        for f, v in (("a", "NEW"), ("b", "B2"), ("c", False), ("c", 0)):
+            D1 = dict(D0i); D1[f] = v
+            ireqs.append({"op": "render", "gen_groups": g["gen_groups"], "path": "p", "updateMode": "", "steps": [{"create": D0i}, {"changes": [[[f], v]], "D": D1}]})
+            ireqs.append({"op": "render", "gen_groups": g["gen_groups"], "path": "p", "steps": [{"create": D1}]})
+            imeta.append((files, f, D1))
+    iouts = core.run_node(ireqs) if ireqs else []
+    for k, (files, f, D1) in enumerate(imeta):
+        a, b = iouts[2 * k], iouts[2 * k + 1]
+        if "snapshots" not in b or not b["snapshots"]:
+            continue
+        chk.evaluations += 1
+        if "error" in a or len(a.get("snapshots", [])) != 2:
+            chk.violation("input", f"updateValues for {f!r} threw on an include template: {a.get('error')}", template=files[0][1], files=files, field=f)
+            continue
+        via = (a["snapshots"][1].get("ret") or {}).get("via")
+        chk.bump(f"oracle:include:{via}")
+        x, y = up.project_state(a["snapshots"][1]["tree"]), up.project_state(b["snapshots"][0]["tree"])
+        if json.dumps(x) != json.dumps(y):
+            chk.violation("input", f"template with <include>: after updateValues for the single field {f!r} (via {via}, advertised {a['snapshots'][0].get('B')}) the tree "
+                          "differs from a fresh creation", template=files[0][1], files=files, field=f, D0=D0i, D1=D1, updated=x, fresh=y)
+    chk.programs = len(meta2) + len(meta3) + len(imeta)
     chk.bump("oracle:bindmap-runs", len(meta2))
     chk.bump("oracle:single-change-runs", len(meta3))
 
